@@ -56,9 +56,16 @@ def render(a):
     return cfgdesc.render_action(a)      # src trans xx lwh lsw relkey
 
 
+def kcode(name):
+    """key code from the key's name; nop0..nop9 are the reserved no-op keys (0x2a4..0x2ad: never written to the OS)"""
+    if name.startswith("nop") and name[3:].isdigit():
+        return 0x2a4 + int(name[3:])
+    return cfgdesc.code(name)
+
+
 def par(a, desc):
     """the action as the monitor sees it (codes instead of names; nothing from the parser)"""
-    c = cfgdesc.code
+    c = kcode
     t = a["t"]
     if t == "key":
         return {"t": "key", "k": c(a["k"])}
@@ -148,7 +155,8 @@ def params_of(desc):
     sq = desc.get("seq", {})
     p = {"keys": [c(k) for k in desc["keys"]], "layers": layers, "lkeys": lkeys, "swkeys": swkeys, "ovr": ovr,
          "roa": desc.get("defcfg", {}).get("override-release-on-activation", "no") == "yes",
-         "seq": {"leaders": [c(k) for k in sq.get("leaders", [])], "T": sq.get("T", 0), "hidden": bool(sq.get("hidden", False))}}
+         "seq": {"leaders": [c(k) for k in sq.get("leaders", [])], "T": sq.get("T", 0), "hidden": bool(sq.get("hidden", False)),
+                 "first": [c(k) for k in sq.get("first", [])]}}
     # a layer-switch the monitor cannot follow (nested, or not the same on every layer) makes the base layer uncertain
     p["dl0"] = 0 if (not has_sw or len(swkeys) == sum(1 for k in desc["keys"] if '"lsw"' in json.dumps([l.get(k, TR) for l in desc["layers"]]))) else -1
     return p
@@ -208,6 +216,8 @@ def family(tier, rng):
     # hold the override outputs of a key that is already listed as an override output)
     OVC = [(["lsft", "x"], ["y"]), (["lctl", "y"], ["z"])]
     add("ovr_chain_fork", "abc", [{"a": FORK(X, Y, ["lctl"]), "b": K("lsft"), "c": K("lctl")}], qmax=2, overrides=OVC)
+    # the reserved no-op keys (first and last of the range) as outputs: held in the layout, never down at the OS
+    add("nop_keys", "ab", [{"a": K("nop9"), "b": MULTI(K("nop0"), X)}], qmax=2)
     # override-release-on-activation: the override lasts one tick and its input keys are released / pressed again around it
     add("overrides_roa", "ab", [{"a": X, "b": K("lctl")}], qmax=2, overrides=[(["lctl", "x"], ["y"])],
         defcfg={"override-release-on-activation": "yes"})
@@ -286,8 +296,17 @@ def extra_configs(tier):
         d = {"keys": ["a", "b", "l"], "layers": [{"a": K("a"), "b": K("b"), "l": SLDR}],
              "defcfg": {"sequence-timeout": 5, "sequence-input-mode": mode},
              "extra": ["(defseq s1 (b b))", "(defvirtualkeys s1 c)"],
-             "seq": {"leaders": ["l"], "T": 5, "hidden": hidden}}
+             "seq": {"leaders": ["l"], "T": 5, "hidden": hidden, "first": ["b"]}}
         E.append(("seq_" + mode.replace("-", "_"), d))
+    # the leader form names its own input mode (and timeout), different from the defcfg ones: the mode of the sequence
+    # that is running decides whether repeats are suppressed
+    for mode, dflt in (("hidden-suppressed", "visible-backspaced"), ("visible-backspaced", "hidden-suppressed"),
+                       ("hidden-delay-type", "visible-backspaced"), ("visible-backspaced", "hidden-delay-type")):
+        d = {"keys": ["a", "b", "l"], "layers": [{"a": K("a"), "b": K("b"), "l": {"t": "raw", "text": "(sequence 8 %s)" % mode}}],
+             "defcfg": {"sequence-timeout": 3, "sequence-input-mode": dflt},
+             "extra": ["(defseq s1 (b b))", "(defvirtualkeys s1 c)"],
+             "seq": {"leaders": ["l"], "T": 8, "hidden": mode != "visible-backspaced", "first": ["b"]}}
+        E.append(("seqform_%s_in_%s" % (mode.split("-")[1], dflt.split("-")[1]), d))
     E.append(("chordsv2", {"keys": ["a", "b", "c"], "layers": [{"a": K("x"), "b": K("y"), "c": K("lsft")}],
                            "defcfg": {"concurrent-tap-hold": "yes"},
                            "chordsv2": [{"ks": ["a", "b"], "o": CH(["lsft"], "z"), "T": 4}]}))
